@@ -188,9 +188,10 @@ func cachingHandler(router proxy.Router, logger *apexlog.Logger, conf *config.Co
 						select {
 						case waitedKeyInfo := <-*cr.WaitChan:
 							// the key Get returns carries this request's own hold on the lock if it became the writer.
-							// The entry is looked up under the key the writer stored it under, but on behalf of this
-							// request: with this client's validators, not the writer's client's.
-							cr, key, err = cache.Get(ctx, rf.CacheId, rf.ForceRevalidate, waitedKeyInfo.CanUseStale, []caching.Key{waitedKeyInfo.Key.ForClientOf(key)}, *w, logger)
+							// The entry is looked up under this request's own keys, like the first time: the writer
+							// may have moved its fill to the key of its own Origin (Vary: Origin), which is this
+							// request's key only if the Origins are the same, and is then among these.
+							cr, key, err = cache.Get(ctx, rf.CacheId, rf.ForceRevalidate, waitedKeyInfo.CanUseStale, keys, *w, logger)
 							if err != nil {
 								writeError(*w, err)
 								return
